@@ -14,6 +14,7 @@ pub mod c12;
 pub mod c13;
 pub mod c14;
 pub mod c16;
+pub mod c18;
 pub mod c19;
 
 use crate::explore::{Limits, Violation};
@@ -47,6 +48,7 @@ pub fn sim_check(id: &str, tier: &str, _seed: i64) -> Option<SimCheck> {
         "C13" => Some(c13::build(tier)),
         "C14" => Some(c14::build(tier)),
         "C16" => Some(c16::build(tier)),
+        "C18" => Some(c18::build(tier)),
         "C19" => Some(c19::build(tier)),
         _ => None,
     }
